@@ -64,9 +64,11 @@ TNote == IsEvent("note") /\ UNCHANGED vars
 (* the client's view must agree with the proxy's: a response iff one reply was started, nothing after it *)
 TCDone == /\ IsEvent("cdone")
           /\ Expect(Ev.extra = 0, "client-got-bytes-after-response")
-          /\ Expect(Ev.rid = 0 \/ Ev.kind = "closed" \/ "client" \in explained[Ev.rid] \/ ((Ev.kind = "response") <=> (replies[Ev.rid] = 1)), "client-view-differs")
+          /\ Expect(Ev.rid = 0 \/ Ev.kind \in {"closed", "oneway-none"} \/ "client" \in explained[Ev.rid] \/ ((Ev.kind = "response") <=> (replies[Ev.rid] = 1)), "client-view-differs")
              \* kind "closed": the driver's client disconnected on purpose without reading (the reply may already have been sent)
           /\ Expect(Ev.kind # "timeout" \/ (Ev.rid # 0 /\ explained[Ev.rid] # {}), "no-reply-in-bounded-time")
+          /\ Expect(Ev.kind # "oneway-none" \/ (Ev.rid # 0 /\ "oneway" \in explained[Ev.rid] /\ replies[Ev.rid] = 0), "oneway-request-not-handled-as-oneway")
+          /\ Expect(Ev.kind # "response" \/ Ev.rid = 0 \/ "oneway" \notin explained[Ev.rid], "reply-to-oneway-request")
           /\ Expect(Ev.elapsed <= Ev.bound, "reply-later-than-timeout-plus-slack")
           /\ UNCHANGED vars
 
